@@ -740,7 +740,7 @@ class Interp:
                 if isinstance(e, (TypeError, AttributeError)):
                     raise Unsupported(f"model gap calling {name} at line {n.lineno}: {type(e).__name__}: {e}")
                 raise
-            if _has_sym(args) or _has_sym(list(kwargs.values())):
+            if _has_sym(args) or _has_sym(list(kwargs.values())) or (slf is not None and _has_sym([slf])):
                 raise Unsupported(f"native call {name} on symbolic data at line {n.lineno}: {type(e).__name__}: {e}")
             raise ModelRaise(type(e).__name__, str(e), n.lineno)
 
